@@ -52,22 +52,77 @@ fn charge(delta: isize, requested: usize) {
     });
 }
 
+/// Requests of at least this size are served by anonymous `mmap` (page-aligned, lazily zero-filled)
+/// instead of the system allocator. The system allocator zero-fills an over-aligned `alloc_zeroed`
+/// request with an explicit `memset`, which makes every input that triggers the IPC reader's
+/// documented 64 MiB pre-allocation cost tens of milliseconds; with `mmap` the untouched pages cost
+/// nothing. Semantics for the library are unchanged (it gets zeroed / writable memory).
+const BIG: usize = 1 << 20;
+const PAGE: usize = 4096;
+
+#[inline]
+fn is_big(size: usize, align: usize) -> bool {
+    size >= BIG && align <= PAGE
+}
+#[inline]
+fn round_up(size: usize) -> usize {
+    (size + PAGE - 1) & !(PAGE - 1)
+}
+unsafe fn big_alloc(size: usize) -> *mut u8 {
+    let p = unsafe { libc::mmap(std::ptr::null_mut(), round_up(size), libc::PROT_READ | libc::PROT_WRITE, libc::MAP_PRIVATE | libc::MAP_ANONYMOUS, -1, 0) };
+    if p == libc::MAP_FAILED { std::ptr::null_mut() } else { p as *mut u8 }
+}
+unsafe fn raw_alloc(l: Layout, zeroed: bool) -> *mut u8 {
+    if is_big(l.size(), l.align()) {
+        unsafe { big_alloc(l.size()) }
+    } else if zeroed {
+        unsafe { System.alloc_zeroed(l) }
+    } else {
+        unsafe { System.alloc(l) }
+    }
+}
+unsafe fn raw_dealloc(p: *mut u8, l: Layout) {
+    if is_big(l.size(), l.align()) {
+        unsafe { libc::munmap(p as *mut libc::c_void, round_up(l.size())) };
+    } else {
+        unsafe { System.dealloc(p, l) }
+    }
+}
+
 unsafe impl GlobalAlloc for Meter {
     unsafe fn alloc(&self, l: Layout) -> *mut u8 {
         charge(l.size() as isize, l.size());
-        unsafe { System.alloc(l) }
+        unsafe { raw_alloc(l, false) }
     }
     unsafe fn alloc_zeroed(&self, l: Layout) -> *mut u8 {
         charge(l.size() as isize, l.size());
-        unsafe { System.alloc_zeroed(l) }
+        unsafe { raw_alloc(l, true) }
     }
     unsafe fn dealloc(&self, p: *mut u8, l: Layout) {
         charge(-(l.size() as isize), 0);
-        unsafe { System.dealloc(p, l) }
+        unsafe { raw_dealloc(p, l) }
     }
     unsafe fn realloc(&self, p: *mut u8, l: Layout, new_size: usize) -> *mut u8 {
         charge(new_size as isize - l.size() as isize, new_size);
-        unsafe { System.realloc(p, l, new_size) }
+        let (ob, nb) = (is_big(l.size(), l.align()), is_big(new_size, l.align()));
+        unsafe {
+            match (ob, nb) {
+                (false, false) => System.realloc(p, l, new_size),
+                (true, true) => {
+                    let q = libc::mremap(p as *mut libc::c_void, round_up(l.size()), round_up(new_size), libc::MREMAP_MAYMOVE);
+                    if q == libc::MAP_FAILED { std::ptr::null_mut() } else { q as *mut u8 }
+                }
+                _ => {
+                    let nl = Layout::from_size_align_unchecked(new_size, l.align());
+                    let q = raw_alloc(nl, false);
+                    if !q.is_null() {
+                        std::ptr::copy_nonoverlapping(p, q, l.size().min(new_size));
+                        raw_dealloc(p, l);
+                    }
+                    q
+                }
+            }
+        }
     }
 }
 
@@ -179,17 +234,8 @@ fn refuse(requested: usize, held: isize) -> ! {
         }
         s
     };
-    let line = format!("A {idx} {requested} {held} {site}\n");
-    unsafe {
-        let b = line.as_bytes();
-        let mut off = 0;
-        while off < b.len() {
-            let n = libc::write(1, b[off..].as_ptr() as *const libc::c_void, b.len() - off);
-            if n <= 0 {
-                break;
-            }
-            off += n as usize;
-        }
-        libc::_exit(REFUSE_EXIT);
-    }
+    // hand the results of the block so far to the parent, then report the refusal and leave
+    crate::c08::flush_partial(idx);
+    println!("A {idx} {requested} {held} {site}");
+    unsafe { libc::_exit(REFUSE_EXIT) }
 }
